@@ -805,6 +805,39 @@ def replay_C01(ctx):
     return check_C01(ctx)
 
 
+def check_C15(ctx):
+    pr = proof_stage(ctx, "Properties/C15.v")
+    cov_from_proof(ctx, pr, ["Astool/Order.v (sorted emission is independent of map iteration order), and per extension the unchanged Proofs/{Spec,Hier,Resolver,Table,Literal,Container,Slot}Proofs.v and Properties/C1{2,3,4,8}.v compiled against the tables the translator reads out of the code astool emitted for that extension",
+                             "not decided by proof: astool itself (RDF parsing, conversion, jennifer code generation) has no Gallina model; byte-identical output over repeated runs and equality of syntax trees with the shipped package are established by executing astool in fresh processes",
+                             "trusted: go build for 'compiles'; the translator's shape checks tie the extension's generated code to its tables"])
+    found = False
+    run_translators(ctx)
+    keep = os.path.join(ctx.rundir, "failing")
+    rc, out, dt = sh(["python3", os.path.join(ROOT, "tools", "c15", "run.py"), ctx.tier, str(ctx.seed), keep], timeout=12000)
+    ctx.note("c15 runner rc=%d (%.1fs)" % (rc, dt))
+    try:
+        res = json.loads(out.strip().splitlines()[-1])
+    except Exception:
+        ctx.violation("C15:runner", "the C15 runner failed", {"kind": "runner", "output": out[-3000:], "unchecked": "correspondence C15"}, nofail=True)
+        return finish(ctx, "proof")
+    ctx.coverage.update({"evaluations": res.get("runs", 0), "distinct_nontrivial": len(res.get("extensions", [])),
+                         "rule": "astool on the four shipped vocabularies in %s fresh processes (byte-identical outputs, file set and syntax trees equal to /repo/streams); random extension vocabularies (1..6 types with one or two parents among ActivityStreams and own types, 1..8 properties with random domains, ranges mixing types and literal kinds, functional or not, natural-language or not, withheld lists): astool, go build, translator, table theorems re-checked by coqc" % res.get("shipped_runs"),
+                         "input_distribution": {"extensions": res.get("extensions"), "regeneration": res.get("regeneration"), "files_generated": res.get("files_generated")},
+                         "samples": res.get("extensions", [])[:1],
+                         "traces_validated_against_impl": sum(1 for e in res.get("extensions", []) if e.get("theorems_rechecked")),
+                         "disagreements": {"violations": len(res.get("violations", []))}})
+    for v in res.get("violations", []):
+        if ctx.violation(v["sig"], v["what"], {"kind": "astool", "detail": v.get("detail"), "ontology": v.get("ontology"), "seed": v.get("seed")}, nofail=bool(v.get("nofail"))):
+            found = True
+    if not pr["built"] and not found:
+        ctx.violation("C15:proof:%s" % pr.get("broken_lemma"), "theorem no longer checks", {"kind": "proof", "file": pr.get("broken_file"), "theorem": pr.get("broken_lemma"), "error": (pr.get("error") or pr.get("out", ""))[-3000:]}, nofail=True)
+    return finish(ctx, "proof")
+
+
+def replay_C15(ctx):
+    return check_C15(ctx)
+
+
 def check_C03(ctx):
     def classify(name, fields, run):
         return ("C03:%s:%s" % (run["family"].split(":")[0], "payload" if "payload" in fields[1] else "body"), "%s (faults %s): %s" % (run["family"], run["faults"], fields[1]))
